@@ -104,7 +104,7 @@ def _inner_variants(stms, base):
     return out
 
 
-def variants(text, max_per_program=60):
+def variants(text, max_per_program=60, prefer=()):
     """list of (tag, program text)"""
     try:
         stms = [s for s in astutil.parse(text) if s.ast_type != ASTType.Program]
@@ -263,6 +263,9 @@ def variants(text, max_per_program=60):
         out.append(("oneline", " ".join(base)))
     # deterministic order, bounded
     out.sort(key=lambda tv: hashlib.sha1((tv[0] + tv[1]).encode()).hexdigest())
+    if prefer:
+        first = [tv for tv in out if tv[0].startswith(prefer)][: max_per_program // 2]
+        out = first + [tv for tv in out if tv not in first]
     return out[:max_per_program]
 
 
@@ -282,6 +285,20 @@ def _directly_recursive_aggregate(text):
     return False
 
 
+PREFER = {
+    "C08": ("dneg", "dnegcmp", "negcmp", "dup", "samepred", "in_dneg", "in_negcmp", "in_dnegcmp"),
+    "C09": ("func", "anon", "samepred", "showsig", "edge_", "const", "addfact"),
+    "C10": ("dnegcmp", "negcmp", "in_", "headcond", "dneg"),
+    "C11": ("dnegcmp", "negcmp", "disjhead", "choiceguard", "headcond", "in_"),
+    "C12": ("absweight", "twosided", "negtwosided", "negagg", "dnegagg", "prio", "objsibling", "weak", "in_", "arith", "anon"),
+    "C13": ("sibling_", "objsibling", "headagg_", "in_", "func", "anon", "absweight"),
+    "C14": ("prioarith", "prio", "dnegcmp", "negcmp", "negagg", "dnegagg", "in_link", "mul", "arith"),
+    "C15": ("sibling_", "in_", "objsibling", "secondrule", "anon", "func"),
+    "C16": ("uscore", "selfsum", "headagg_", "choiceguardvar", "choicehead", "disjhead", "arith", "mul", "negdrop"),
+    "C05": ("dnegcmp", "negcmp", "in_", "negagg", "dnegagg", "twosided", "anon"),
+}
+
+
 def variant_corpus(entries, per_program, total, salt=""):
     """deterministic sample of variants of the given corpus entries.  No variants are derived from inputs of recorded
     known findings (a variant of a defective input shows the same defect under a new text) nor from programs that recurse
@@ -295,10 +312,15 @@ def variant_corpus(entries, per_program, total, salt=""):
             continue
         if kf.sha(e["text"]) in known_inputs or _directly_recursive_aggregate(e["text"]):
             continue
-        for tag, t in variants(e["text"], per_program):
+        for tag, t in variants(e["text"], per_program, PREFER.get(salt, ())):
             h = hashlib.sha1((salt + e["id"] + tag + t).encode()).hexdigest()
             allv.append((h, dict(e, id=f"V-{e['id']}-{tag}", text=t, outs=e.get("outs"), base=e["id"])))
     allv.sort(key=lambda x: x[0])
+    # half of the sample is reserved for the operators that touch what the pass of this property looks at
+    pref = PREFER.get(salt, ())
+    if pref:
+        tagged = [x for x in allv if x[1]["id"].rsplit("-", 1)[-1].startswith(pref)]
+        allv = tagged[: total // 2] + [x for x in allv if x not in tagged[: total // 2]]
     seen, out = set(), []
     for _, e in allv:
         if e["text"] not in seen:
